@@ -32,6 +32,6 @@ contract(
         )
     },
     canaries=["dq_decode(result) == value + 'x'"],
-    domain=dict(alphabet=["$", "{", "\\", '"', "a", "\n", "\r", "}"], max_len=5, max_len_thorough=6),
+    domain=dict(alphabet=["$", "{", "\\", '"', "a", "\n", "\r", "}", "\x0c", "\t"], max_len=4, max_len_thorough=5),
     props=["C12", "C13"],
 )
